@@ -4,10 +4,13 @@
   Property theorems only. All statements are about the mechanism model of
   `high_resolution_timer` + `simulation::run()` in SimVerif/Kernel.lean and quantify over
   every label sequence (every program, every schedule). Precondition of the code (an
-  `assert` compiled out under NDEBUG): at most one outstanding wait per timer.
+  `assert` compiled out under NDEBUG): at most one outstanding wait per timer — `WaitPre`;
+  only `C03_no_lost_wait` needs it. The at-most-once theorems need only that handler ids
+  name distinct `async_wait` calls (`FreshWaits`).
 -/
 import SimVerif.Props.C02
 import SimVerif.Lemmas.KernelOrder
+import SimVerif.Lemmas.KernelOnce
 
 namespace SimVerif
 
@@ -33,8 +36,9 @@ theorem C03_never_early (ls : List Lbl) (t : Task) (c : Int)
 theorem C03_cancel (k : K) (i : Nat) (hk : KInv k) :
     (∀ h, (k.timers i).handler = some h →
         (cancel k i).2 = 1
-        ∧ (cancel k i).1.ready = k.ready ++ [{ h := h, ec := .aborted, tm := true,
-              exp := (k.timers i).expiry, st := (k.timers i).startedAt }]
+        ∧ (cancel k i).1.ready = k.ready ++
+            [{ h := h, ec := .aborted, tm := true, exp := (k.timers i).expiry,
+               st := (k.timers i).startedAt }]
         ∧ ((cancel k i).1.timers i).handler = none
         ∧ ((cancel k i).1.timers i).expired = true)
     ∧ ((k.timers i).handler = none → (cancel k i).2 = 0 ∧ (cancel k i).1.ready = k.ready) := by
@@ -102,30 +106,70 @@ theorem C03_order (ls : List Lbl) :
     OrderedTq (runLbls repaired {} ls) :=
   (OInv_run repaired rfl rfl ls {} KInv_init OInv_init).ordered
 
-/-- … and `fireDue` posts completions in exactly that order: what it appends to `ready` is
-    the handlers of a prefix of the queue, in queue order. -/
-theorem C03_fire_in_queue_order (l : List (Int × Nat)) (k : K) :
-    ∃ n, n ≤ l.length ∧ (fireDue l k).2 = n ∧ (fireDue l k).1.tq = l.drop n ∨ (fireDue l k).2 = 0 := by
-  induction l generalizing k with
-  | nil => exact ⟨0, Or.inl ⟨Nat.le_refl _, rfl, rfl⟩⟩
-  | cons a rest ih =>
-    obtain ⟨e, i⟩ := a
-    unfold fireDue
-    split
-    · obtain ⟨n, hn⟩ := ih (fire { k with tq := rest } i .ok)
-      rcases hn with ⟨h1, h2, h3⟩ | h0
-      · exact ⟨n + 1, Or.inl ⟨by simp; omega, by simp [h2], by simpa using h3⟩⟩
-      · refine ⟨1, Or.inl ⟨by simp, by simp [h0], ?_⟩⟩
-        simp only [List.drop_succ_cons, List.drop_zero]
-        cases rest with
-        | nil => simp [fireDue, fire_tq]
-        | cons b rest' =>
-          obtain ⟨e', j⟩ := b
-          unfold fireDue at h0 ⊢
-          split
-          · simp at h0
-          · simp [fire_tq]
-    · exact ⟨0, Or.inr rfl⟩
+/-- … and the timer loop of `run()` consumes the queue from the front: what is left is the
+    queue minus the first `n` entries, `n` being the number of timers it fired. -/
+theorem C03_fire_in_queue_order (l : List (Int × Nat)) (k : K) (h : k.tq = l) :
+    (fireDue l k).1.tq = l.drop (fireDue l k).2 :=
+  fireDue_tq l k h
+
+/-- … and it posts the completions in exactly that order: what it appends to `ready` is, in
+    queue order, the pending handlers (where there is one) of the `n` entries it popped,
+    each bound with success. -/
+theorem C03_fire_posts_in_queue_order (l : List (Int × Nat)) (k : K) (hk : KInv k) (h : k.tq = l) :
+    (fireDue l k).1.ready = k.ready ++ (l.take (fireDue l k).2).filterMap (fun x =>
+      ((k.timers x.2).handler).map (fun h =>
+        { h := h, ec := .ok, tm := true, exp := (k.timers x.2).expiry,
+          st := (k.timers x.2).startedAt })) :=
+  fireDue_ready l k (h ▸ hk.nodup)
+
+/-! #### Every wait completes at most once
+
+A wait is named by the handler id passed to `async_wait`; `FreshWaits [] ls` says the
+`wait` labels of `ls` carry pairwise distinct ids (`freshWaits_iff`). -/
+
+/-- **No completion is posted twice, and a wait still pending in its timer has not been
+    posted**: the handler ids of all timer completions posted so far (executed or still
+    queued) are pairwise distinct, and disjoint from the ids stored in timers. -/
+theorem C03_posted_at_most_once (ls : List Lbl) (hf : FreshWaits [] ls) :
+    (runLbls repaired {} ls).posted.Nodup
+    ∧ ∀ i h, ((runLbls repaired {} ls).timers i).handler = some h →
+        h ∉ (runLbls repaired {} ls).posted :=
+  have ho := OnceInv_run repaired ls {} hf OnceInv_init
+  ⟨ho.nodup, ho.slotExcl⟩
+
+/-- **Every wait completes at most once**: the timer completions that were executed carry
+    pairwise distinct handler ids. -/
+theorem C03_at_most_once (ls : List Lbl) (hf : FreshWaits [] ls) :
+    (((runLbls repaired {} ls).ran.filter (fun x => x.1.tm)).map (fun x => x.1.h)).Nodup :=
+  (OnceInv_run repaired ls {} hf OnceInv_init).ran_nodup
+
+/-- Two executed timer completions with the same handler id are the same execution. -/
+theorem C03_completion_unique (ls : List Lbl) (hf : FreshWaits [] ls)
+    (t₁ t₂ : Task) (c₁ c₂ : Int)
+    (h₁ : (t₁, c₁) ∈ (runLbls repaired {} ls).ran) (h₂ : (t₂, c₂) ∈ (runLbls repaired {} ls).ran)
+    (m₁ : t₁.tm = true) (m₂ : t₂.tm = true) (hh : t₁.h = t₂.h) : (t₁, c₁) = (t₂, c₂) :=
+  eq_of_nodup_map (fun x : Task × Int => x.1.h) _ (C03_at_most_once ls hf) (t₁, c₁) (t₂, c₂)
+    (List.mem_filter.mpr ⟨h₁, by simpa using m₁⟩) (List.mem_filter.mpr ⟨h₂, by simpa using m₂⟩) hh
+
+/-- **A wait completed with `operation_aborted` never also completes successfully** (nor the
+    other way round). -/
+theorem C03_abort_excludes_success (ls : List Lbl) (hf : FreshWaits [] ls)
+    (t₁ t₂ : Task) (c₁ c₂ : Int)
+    (h₁ : (t₁, c₁) ∈ (runLbls repaired {} ls).ran) (h₂ : (t₂, c₂) ∈ (runLbls repaired {} ls).ran)
+    (m₁ : t₁.tm = true) (m₂ : t₂.tm = true) (hh : t₁.h = t₂.h) : t₁.ec = t₂.ec := by
+  have := C03_completion_unique ls hf t₁ t₂ c₁ c₂ h₁ h₂ m₁ m₂ hh
+  simp only [Prod.mk.injEq] at this
+  rw [this.1]
+
+/-- **No wait is lost**, provided the program respects the precondition of `async_wait`
+    (`assert(!m_handler)`: no second wait while one is outstanding on the same timer,
+    `WaitPre`): every wait ever started is still pending in its timer or its completion
+    has been posted. -/
+theorem C03_no_lost_wait (ls : List Lbl) (hp : WaitPre repaired {} ls) (h : Nat)
+    (hs : h ∈ (runLbls repaired {} ls).started) :
+    (∃ i, ((runLbls repaired {} ls).timers i).handler = some h)
+    ∨ h ∈ (runLbls repaired {} ls).posted :=
+  Held_run repaired ls {} hp Held_init h hs
 
 /-! #### The pinned tree violated the property (regression witness)
 
@@ -151,5 +195,12 @@ def c03Example : List Lbl :=
 example : (runLbls repaired {} c03Example).tq = [(20, 2), (50, 0), (50, 1)]
     ∧ ((runLbls repaired {} c03Example).timers 2).handler = some 3
     ∧ (runLbls repaired {} c03Example).ready.length = 1 := by decide
+
+/-- The hypotheses of the at-most-once / no-lost-wait theorems hold for that run (it
+    contains a wait, a cancel and a second wait on the same timer). -/
+example : FreshWaits [] c03Example ∧ WaitPre repaired {} c03Example := by
+  constructor
+  · simp [FreshWaits, c03Example, Lbl.waitId?]
+  · simp [WaitPre, c03Example]; decide
 
 end SimVerif
